@@ -129,6 +129,19 @@ class C18(Check):
         if cfg["engines"][0]["decision"]["name"] == "AllVisibleDecision":
             for s in sensors:
                 s["sensor"]["type"] = "adv_radar"
+        if rng.random() < 0.3:
+            # steps without any observation while multiple-model estimation may be running: the observing sensors leave (agent_removal) and a
+            # replacement joins at the same site a step or two later; a sensor on the far side of the Earth keeps the engine populated
+            observing = [s0["id"] for s0 in sensors]
+            far = gen.ground_sensor(90009, -site["latitude"], ((site["longitude"] + 360.0) % 360.0) - 180.0, 0.0, gen.sensor_block("adv_radar", coarse=False))
+            cfg["engines"][0]["sensors"].append(far)
+            k_gap = k_imp + rng.randrange(2, 5)
+            for sid0 in observing:
+                cfg["events"].append({"scope": "scenario_step", "scope_instance_id": 0, "event_type": "agent_removal", "start_time": fmt_ts(start + dt.timedelta(seconds=step * k_gap)),
+                                      "tasking_engine_id": 1, "agent_id": sid0, "agent_type": "sensor"})
+            back = gen.ground_sensor(90005, site["latitude"], site["longitude"], site["altitude"], gen.sensor_block("adv_radar", coarse=False, field_of_view={"fov_shape": "conic", "cone_angle": 30.0}))
+            cfg["events"].append({"scope": "scenario_step", "scope_instance_id": 0, "event_type": "sensor_addition", "start_time": fmt_ts(start + dt.timedelta(seconds=step * (k_gap + rng.randrange(1, 3)))),
+                                  "tasking_engine_id": 1, "sensor_agent": back})
         return {"config": cfg, "plan": [{"seconds": nsteps * step}], "schedule": {"name": "seeded", "seed": rng.randrange(2**31)}, "job_seed": rng.randrange(2**31)}
 
     def sample_view(self, case):
@@ -149,7 +162,16 @@ class C18(Check):
                     raise ctx.error
                 name = type(ctx.error).__name__
                 cnt["aborted_" + name] = 1
-                if started and name not in ("LinAlgError", "EarthCollisionError"):
+                in_init = False
+                tb = ctx.error.__traceback__
+                while tb is not None:
+                    if tb.tb_frame.f_code.co_name == "initialize" and tb.tb_frame.f_code.co_filename.endswith("adaptive_filter.py"):
+                        in_init = True
+                    tb = tb.tb_next
+                if in_init:
+                    # building the hypotheses of a (further) multiple-model start failed: before estimation is active, outside the statement (DESIGN section 5, notes)
+                    cnt["aborted_in_mmae_initialisation"] = 1
+                elif started and name not in ("LinAlgError", "EarthCollisionError"):
                     viol.append({"clause": "mmae-run-aborted", "key": name,
                                  "detail": f"multiple-model estimation had started (step {started[0]['step']}, {started[0]['n']} models); the run aborted in step {probes.STATE['step']} with {name}: {str(ctx.error)[:200]}"})
             for r in probes.of_kind("mmae_init"):
@@ -177,6 +199,23 @@ class C18(Check):
                         break
                     j += 1
                 i = j + 1
+                if end is not None and len(end["models"]) == len(end["weights"]) >= 1 and np.all(np.isfinite(end["weights"])):
+                    # whatever path the update took (with or without observations, pruning, closure): what the filter now reports is the mixture of its models
+                    ww = end["weights"]
+                    mean = sum(wi * m["est_x"] for wi, m in zip(ww, end["models"]))
+                    cov = sum(wi * (m["est_p"] + np.outer(m["est_x"] - mean, m["est_x"] - mean)) for wi, m in zip(ww, end["models"]))
+                    where0 = f"step {r['step']} target {r['target']} {r['cls']} with {r['n']} models, {r['n_obs']} observations"
+                    cnt["end_of_update_mixtures_checked"] = cnt.get("end_of_update_mixtures_checked", 0) + 1
+                    if not r["n_obs"]:
+                        cnt["adaptive_updates_without_observations"] = cnt.get("adaptive_updates_without_observations", 0) + 1
+                    if not np.allclose(end["est_x"], mean, rtol=1e-9, atol=1e-12):
+                        viol.append({"clause": "combined-mean", "key": r["cls"] + ("/no-observations" if not r["n_obs"] else ""),
+                                     "detail": f"{where0}: after the update the combined estimate differs from the probability-weighted mean of the models by {float(np.max(np.abs(end['est_x'] - mean))):.3e}"})
+                        continue
+                    if not np.allclose(end["est_p"], cov, rtol=1e-9, atol=1e-18):
+                        viol.append({"clause": "combined-covariance", "key": r["cls"] + ("/no-observations" if not r["n_obs"] else ""),
+                                     "detail": f"{where0}: after the update the combined covariance differs from the moment-matched mixture covariance by {float(np.max(np.abs(end['est_p'] - cov))):.3e}"})
+                        continue
                 if end is None or not comps:
                     continue
                 cnt["adaptive_updates"] = cnt.get("adaptive_updates", 0) + 1
